@@ -635,7 +635,7 @@ def probe_spectrum(ctx, gs, rng, thorough):
 
 def probe_eig(ctx, gs, rng, thorough):
     """minimum eigenvalue of covariance matrices built by the implementation (cov_spatial: rotation + anisotropy)"""
-    n = 80 if thorough else 40
+    n = 60 if thorough else 40
     stage = "probe: minimum eigenvalue of the covariance matrix"
     for name, cfg, d, sig, p in configs(gs, rng, thorough, 20 if thorough else 5, ulp=thorough):
         for rep in range(3 if thorough else 2):
